@@ -82,3 +82,16 @@ Print Assumptions C13_gatherU_slicewise.
 Print Assumptions C13_setitem_const_spec.
 Print Assumptions C13_setitem_getitem.
 Print Assumptions C13_transpose2_id.
+
+(* ---- transposition for EVERY rank: x.T.T = x, and a transposition by any axis permutation is a bijection of the flat data *)
+From AlgoV Require Import Conv ConvSpec TransposeSpec MiscSpec.
+Theorem C13_transposeT_involutive (T : Type) (x0 : T) (s : shape) (data : seq T) : size data = nelem s ->
+  let g := transpose_gather (rev_perm (size s)) s in
+  apply_gather x0 (transpose_gather (rev_perm (size s)) g.1) (apply_gather x0 g data) = data
+  /\ (transpose_gather (rev_perm (size s)) g.1).1 = s.
+Proof. exact: transposeT_involutive. Qed.
+Theorem C13_transpose_gather_perm (perm : seq nat) (s : shape) : perm_eq perm (iota 0 (size s)) ->
+  perm_eq (transpose_gather perm s).2 (iota 0 (nelem s)).
+Proof. exact: transpose_gather_perm. Qed.
+Print Assumptions C13_transposeT_involutive.
+Print Assumptions C13_transpose_gather_perm.
